@@ -159,6 +159,14 @@ class Resolver:
             if found:
                 break
             g = g.parent
+        if t is None:
+            # isinstance(name, Cls) gate anywhere in the function
+            for n in walk_local(f.node):
+                if isinstance(n, ast.Call) and isinstance(n.func, ast.Name) and n.func.id == "isinstance" \
+                        and len(n.args) == 2 and isinstance(n.args[0], ast.Name) and n.args[0].id == name \
+                        and isinstance(n.args[1], ast.Name) and n.args[1].id in self.p.classes:
+                    t = n.args[1].id
+                    break
         self._local_types[key] = t
         return t
 
